@@ -76,8 +76,10 @@ def closeDl (x : Src) : Src := { x with dl := false }
 def disable (retry : Bool) (x : Src) : Src :=
   { x with disabled := true, dl := false, retryDue := x.retryDue || retry }
 
-/-- the retry timer of the source has fired -/
-def clearDue (x : Src) : Src := { x with retryDue := false }
+/-- the retry timer of the source has fired: the pause after the download error is over, whatever can be done with
+the source at this moment (fix for finding C10-F4 — `Disabled` used to stay set when the retry found the torrent
+stopped, every slot taken or nothing to pick, and nothing ever cleared it) -/
+def clearDue (x : Src) : Src := { x with retryDue := false, disabled := false }
 
 /-- `startPieceDownloaderForWebseed(src)`; `pick` = `PickWebseed(src)` found a range. -/
 def startFor (s : St) (i : Nat) (pick : Bool) : St × Bool :=
